@@ -41,16 +41,22 @@ def ref_meta(family, tree, P, B):
         # conformant metafiles carrying keys this tool never writes
         if family == "ref-V1-extra":
             m = model.ref_v1(name, tree, P)
-            for e in m[b"info"].get(b"files", []):
+            for i, e in enumerate(m[b"info"].get(b"files", [])):
                 e[b"md5sum"] = b"0" * 32
-                e[b"attr"] = b"x"
+                if i % 2 == 0:
+                    e[b"attr"] = b"x"
         else:
             m = model.ref_v2(name, tree, P, B)
+
+            count = [0]
 
             def mark(node):
                 for k, v in node.items():
                     if b"" in v:
-                        v[b""][b"attr"] = b"x"
+                        # every other leaf carries an attribute
+                        if count[0] % 2 == 0:
+                            v[b""][b"attr"] = b"x"
+                        count[0] += 1
                     else:
                         mark(v)
             mark(m[b"info"][b"file tree"])
@@ -65,9 +71,8 @@ def ref_meta(family, tree, P, B):
 
 def families(tier, nfiles):
     fams = ["own-v1", "own-v1-aligned", "own-v2", "own-hybrid"] + REF
-    if tier == "quick":
-        fams = [f for f in fams if not f.endswith("-extra")] if nfiles > 2 \
-            else fams
+    if tier == "quick" and nfiles > 3:
+        fams = [f for f in fams if not f.endswith("-extra")]
     if tier == "thorough":
         fams += ["own-v2-class", "own-hybrid-class"]
     return fams
@@ -228,12 +233,16 @@ class RecheckCheck:
         # R
         Ps = [32768] if quick else [16384, 32768, 65536]
         for P in Ps:
-            for sh in (["S1", "D1", "D1n", "D2n", "D3", "D3n", "D3d", "D3b", "D3e"] if quick
+            for sh in (["S1", "D1", "D1n", "D2n", "D3", "D3n", "D3d", "D3b", "D3e", "D3o",
+                        "D3u"] if quick
                        else ["S1", "D1", "D1n", "D2n", "D3", "D3s", "D3n",
-                             "D3d", "D3b", "D3e", "D4"]):
+                             "D3d", "D3b", "D3e", "D3o", "D3u", "D4"]):
                 n = world.nfiles(sh)
                 if n <= 2:
                     alpha = e1.r_alphabet(P, "quick", n)
+                elif n == 3 and sh not in ("D3", "D3s"):
+                    # shapes that vary names / structure, not sizes
+                    alpha = [0, P + 1] if quick else [0, 1, P + 1]
                 elif n == 3:
                     alpha = [0, 1, P, P + 1, 2 * P] if quick else \
                         [0, 1, REAL_B + 1, P - 1, P, P + 1, 2 * P, 3 * P + 1]
@@ -458,6 +467,7 @@ class RecheckCheck:
                             continue
                         if single and changed.get(0, b"x") is None:
                             continue
+                        third = None
                         try:
                             with tf.quiet():
                                 c = tf.recheck.Checker(mpath, root)
@@ -466,10 +476,29 @@ class RecheckCheck:
                                              restore=True)
                             with tf.quiet():
                                 second = float(c.results())
+                            # and the other way round: asked on intact
+                            # content first, then on the damaged one
+                            with tf.quiet():
+                                c2 = tf.recheck.Checker(mpath, root)
+                                c2.results()
+                            self.write_state(root, files, changed)
+                            with tf.quiet():
+                                third = float(c2.results())
                         except Exception as e:  # noqa
                             first = second = None
                         finally:
                             self.write_state(root, files, changed)
+                        if third is not None and third >= 100 and \
+                                self.id == "C04":
+                            ver = model.meta_version_of(meta[b"info"])
+                            found.append((
+                                f"C04|{fam}|v{ver}|same-checker-object-"
+                                f"reports-100-after-damage|"
+                                f"{e1.world_class(w)}|{dmg_class(dmg_set)}",
+                                {"world": w, "seed": seed, "family": fam,
+                                 "content": "reuse",
+                                 "damage": [list(d) for d in dmg_set]},
+                                {"after_damage": third}))
                         res.transitions += 2
                         res.evals += 1
                         res.validated += 1
